@@ -6,7 +6,7 @@ cp -r /repo "$d/repo"
 ( cd "$d/repo" && git apply "$patch" ) || { echo "PATCH DOES NOT APPLY"; rm -rf "$d"; exit 2; }
 cd /verif
 for p in "$@"; do
-  out=$(VERIF_REPO="$d/repo" ./check "$p" --tier quick 2>&1 | grep -E "VIOLATION|^\[$p\]" | head -3)
+  out=$(VERIF_REPO="$d/repo" VERIF_EVIDENCE_DIR="$d/evidence" ./check "$p" --tier quick 2>&1 | grep -E "VIOLATION|^\[$p\]" | head -3)
   echo "== $p: $out"
 done
 rm -rf "$d"
